@@ -222,7 +222,7 @@ p_harness!(c01_p_control_le, 20, Shape { storage: false, htyp: H_EXT_LE, msin: M
 p_harness!(c01_p_verbose_bool_le, 20, Shape { storage: false, htyp: H_EXT_LE, msin: M_LOG_INFO_V, ids: IDS_FULL, payload: P::Verbose(&[arg(AK::Bool)]) }, 2);
 p_harness!(c01_p_verbose_u32_named_be_storage, 20, Shape { storage: true, htyp: H_ALL_BE, msin: M_LOG_INFO_V, ids: IDS_FULL, payload: P::Verbose(&[arg_v(AK::U(4), 2, 1)]) }, 2);
 p_harness!(c01_p_verbose_string_le, 20, Shape { storage: false, htyp: H_EXT_LE, msin: M_APP_V, ids: IDS_SHORT, payload: P::Verbose(&[arg(AK::Str)]) }, 2);
-p_harness!(c01_p_nettrace_le, 20, Shape { storage: false, htyp: H_EXT_LE, msin: M_NW_CAN_V, ids: IDS_FULL, payload: P::NetTrace(&[1, 1]) }, 2);
+p_harness!(c01_p_nettrace_le, 20, Shape { storage: false, htyp: H_EXT_LE, msin: M_NW_CAN_V, ids: IDS_FULL, payload: P::NetTrace(&[2]) }, 2);
 p_harness!(c01_p_nettrace_be, 20, Shape { storage: false, htyp: H_EXT_BE, msin: M_NW_CAN_V, ids: IDS_FULL, payload: P::NetTrace(&[3]) }, 2);
 
 /// probe: storage shape with the specification stub of the pattern search
@@ -235,3 +235,8 @@ fn c01_probe_storage_fwdstub() {
     let s = Shape { storage: true, htyp: H_ALL_BE, msin: M_LOG_WARN_NV, ids: IDS_SHORT, payload: P::NonVerbose(3) };
     parse_identity(&s, 2);
 }
+
+// two arguments / two slices (thorough tier: the second argument's parse starts from a remainder that symex no
+// longer tracks as concrete, which makes these an order of magnitude more expensive than one-argument shapes)
+p_harness!(c01_p_verbose_two_args_u8_bool, 30, Shape { storage: false, htyp: H_EXT_LE, msin: M_LOG_INFO_V, ids: IDS_FULL, payload: P::Verbose(&[arg(AK::U(1)), arg(AK::Bool)]) }, 1);
+p_harness!(c01_p_nettrace_two_slices, 30, Shape { storage: false, htyp: H_EXT_LE, msin: M_NW_CAN_V, ids: IDS_FULL, payload: P::NetTrace(&[1, 1]) }, 1);
